@@ -7,6 +7,7 @@ require (
 	github.com/ipfs/go-cid v0.5.0
 	github.com/ipld/go-car v0.6.2
 	github.com/ipld/go-car/cmd v0.0.0
+	github.com/anishathalye/porcupine v1.3.0
 	github.com/ipld/go-car/v2 v2.14.2
 	github.com/multiformats/go-multicodec v0.9.0
 	github.com/multiformats/go-multihash v0.2.3
